@@ -133,6 +133,8 @@ pub struct GenCfg {
     pub idents: Vec<String>,
     /// payload types must be Sync (values of a `static` phf map)
     pub sync_only: bool,
+    /// adjacent variants may share a canonical name (only without a parser)
+    pub dup_names: bool,
 }
 
 pub const DEFAULTABLE: &[FieldTy] = &[
@@ -217,8 +219,23 @@ pub fn add_noise(rg: &mut Rg, e: &mut EnumSpec) {
         if e.noise.iter().any(|(_, x)| x == t) {
             continue;
         }
-        let slot = rg.below(5) as u8;
+        let slot = rg.below(6) as u8;
         e.noise.push((slot, t.to_string()));
+    }
+}
+
+/// identifiers that differ only in case / word boundaries (distinct Rust identifiers that careless
+/// normalisation would merge)
+pub const IDENT_PAIRS: &[(&str, &str)] = &[("Ab", "AB"), ("ABC", "AbC"), ("dark_black", "Dark_Black"), ("UserID", "UserId"), ("HTTPServer", "HttpServer"), ("IO", "Io"), ("X1Y2", "X1y2")];
+
+/// with some probability move such a pair to the front of the identifier list (adjacent variants)
+pub fn with_ident_pair<'a>(rg: &mut Rg, idents: &mut Vec<&'a str>) {
+    if rg.chance(1, 6) {
+        let (a, b) = *rg.pick(IDENT_PAIRS);
+        idents.retain(|x| *x != a && *x != b);
+        let at = rg.below(3).min(idents.len());
+        idents.insert(at, b);
+        idents.insert(at, a);
     }
 }
 
@@ -232,6 +249,8 @@ pub fn variant_noise(rg: &mut Rg, e: &mut EnumSpec, docs_ok: bool) {
     for v in e.variants.iter_mut() {
         if rg.chance(1, 4) {
             v.noise.push(rg.pick(&pool).to_string());
+            // anywhere among the variant's #[strum(..)] attributes
+            v.noise_at = rg.range(0, v.groups.len());
         }
     }
 }
@@ -492,6 +511,7 @@ pub fn gen_string(rg: &mut Rg, cfg: &GenCfg) -> EnumSpec {
     let n = if cfg.min_variants > 8 { rg.range(cfg.min_variants, cfg.max_variants) } else { rg.weighted(&[(1, 0usize), (1, 1), (3, 2), (4, 3), (4, 4), (3, 5), (2, 6), (1, 7), (1, 8)]).min(cfg.max_variants).max(cfg.min_variants) };
     let mut idents: Vec<&str> = IDENTS.to_vec();
     rg.shuffle(&mut idents);
+    with_ident_pair(rg, &mut idents);
     if !cfg.idents.is_empty() {
         let mut first: Vec<&str> = cfg.idents.iter().map(|s| s.as_str()).collect();
         first.extend(idents.iter().copied().filter(|i| !cfg.idents.iter().any(|c| c == i)));
@@ -610,6 +630,15 @@ pub fn gen_string(rg: &mut Rg, cfg: &GenCfg) -> EnumSpec {
                         lits.push(sib);
                     }
                 }
+                // ... or a sibling that differs only in the case of a NON-ASCII letter: two distinct spellings
+                // even for a case-insensitive variant (ASCII folding does not touch them)
+                if rg.chance(1, 8) && !cfg.plain_literals {
+                    let base = lits[0].clone();
+                    let sib: String = base.chars().map(|c| if c.is_ascii() { c.to_string() } else if c.is_lowercase() { c.to_uppercase().collect() } else { c.to_lowercase().collect() }).collect();
+                    if sib != base && sib.chars().count() == base.chars().count() && !lits.contains(&sib) {
+                        lits.push(sib);
+                    }
+                }
                 rg.shuffle(&mut lits);
                 for l in lits {
                     attrs.push(VAttr::Serialize(l));
@@ -654,6 +683,21 @@ pub fn gen_string(rg: &mut Rg, cfg: &GenCfg) -> EnumSpec {
     // braces in non-placeholder literals confuse Display's placeholder scanner: only C17 plays with them
     use_generics(&mut e);
     repair_spellings(&mut e);
+    if cfg.dup_names && !e.derives("EnumString") {
+        for vi in 1..e.variants.len() {
+            let (a, b) = (&e.variants[vi - 1], &e.variants[vi]);
+            let plain = |v: &VariantSpec| !v.is_default() && !v.transparent() && v.to_string_lit().map(|l| !l.contains('{')).unwrap_or(true);
+            if rg.chance(1, 8) && plain(a) && plain(b) && !model::base_name(&e, a).contains('{') {
+                let name = model::base_name(&e, a);
+                let v = &mut e.variants[vi];
+                for g in v.groups.iter_mut() {
+                    g.retain(|x| !matches!(x, VAttr::Serialize(_) | VAttr::ToString(_)));
+                }
+                v.groups.retain(|g| !g.is_empty());
+                v.groups.push(vec![VAttr::ToString(name)]);
+            }
+        }
+    }
     add_noise(rg, &mut e);
     irrelevant_enum_attrs(rg, &mut e, true, false);
     let docs_ok = !e.derives("EnumMessage");
@@ -735,6 +779,7 @@ pub fn gen_iter(rg: &mut Rg, cfg: &IterCfg) -> EnumSpec {
     };
     let mut idents: Vec<&str> = IDENTS.to_vec();
     rg.shuffle(&mut idents);
+    with_ident_pair(rg, &mut idents);
     let mut stems: Vec<&str> = STEMS.to_vec();
     rg.shuffle(&mut stems);
     let mut si = 0;
@@ -868,6 +913,7 @@ pub fn gen_repr(rg: &mut Rg, repr: Option<&str>, derives: &[String]) -> EnumSpec
         }
         let mut idents: Vec<&str> = IDENTS.to_vec();
         rg.shuffle(&mut idents);
+        with_ident_pair(rg, &mut idents);
         let mut prev: Option<i128> = None;
         for vi in 0..n {
             let mut v = VariantSpec::unit(idents[vi]);
@@ -1141,6 +1187,19 @@ pub fn gen_table(rg: &mut Rg, n_enabled: usize) -> EnumSpec {
         }
         e.variants.push(v);
     }
+    // a DISABLED variant may share its snake_case name with an enabled one (it has no slot): put such a
+    // twin right before its enabled partner
+    if rg.chance(1, 5) {
+        let (a, b) = *rg.pick(IDENT_PAIRS);
+        if model::snake_method(a) == model::snake_method(b) && !e.variants.iter().any(|v| model::snake_method(&v.ident) == model::snake_method(a)) {
+            let mut d = VariantSpec::unit(a);
+            d.groups = disabled_attrs(rg, 99);
+            let en = VariantSpec::unit(b);
+            let at = rg.range(0, e.variants.len());
+            e.variants.insert(at, en);
+            e.variants.insert(at, d);
+        }
+    }
     // explicit discriminants in no particular order must not reorder the table
     if rg.chance(1, 3) {
         let mut vals: Vec<i128> = (0..e.variants.len() as i128).map(|i| i * 5 + 2).collect();
@@ -1250,6 +1309,10 @@ pub fn gen_disc(rg: &mut Rg) -> EnumSpec {
             v.groups = layout(rg, attrs, false);
             if strumy && rg.chance(1, 4) {
                 v.disc_passthrough.push(format!("strum(serialize = \"pt-{}\")", stems[vi % stems.len()]));
+                // sometimes a second, separate pass-through attribute on the same variant
+                if rg.chance(1, 2) {
+                    v.disc_passthrough.push(format!("strum(to_string = \"ptt-{}-{}\")", stems[vi % stems.len()], vi));
+                }
             }
             if rg.chance(1, 4) {
                 v.docs = vec![DocLine { style: DocStyle::Line, text: " documented variant".into() }];
